@@ -103,7 +103,7 @@ theorem send_ok (k : Kcp) (b : Bytes) (h : InvMss k) :
   split
   · exact ⟨rfl, hk1, rfl⟩
   split
-  · exact ⟨rfl, hk1, rfl⟩
+  · exact ⟨rfl, h, rfl⟩
   split
   · rename_i hbad
     have : min buf.length mss ≤ mss := Nat.min_le_right _ _
